@@ -1336,6 +1336,78 @@ def unwrap_try(se, t, depth=0):
 
 # --------------------------------------------------------------------------- copies keep the value
 
+def _eta(fb, t):
+    """a copy spelled field by field is the value itself: T{x.0, x.1.clone(), ..} -> x"""
+    t = strip(t)
+    while is_call(t) and (t[1] in IDENT_CALLS or t[1].endswith(" as std::clone::Clone>::clone") or t[1].endswith("std::clone::Clone::clone") or "impl std::clone::Clone for" in t[1]) and len(t[2]) == 1:
+        t = strip(t[2][0])
+    if t[0] == "agg" and t[1] == "adt" and t[2] in fb.adts and (fb.adts[t[2]] or {}).get("kind") == "Struct":
+        fs = fb.adt_fields(t[2]) or []
+        parts = [_eta(fb, x) for x in t[4]]
+        if parts and len(parts) == len(fs) and all(x[0] == "field" and x[2] == i for i, x in enumerate(parts)) and len({x[1] for x in parts}) == 1:
+            return parts[0][1]
+    if t[0] == "agg" and t[1] == "array" and t[4]:
+        parts = [_eta(fb, x) for x in t[4]]
+        if all(x[0] == "cindex" and x[2] == i and not x[3] for i, x in enumerate(parts)) and len({x[1] for x in parts}) == 1:
+            return parts[0][1]
+    return t
+
+
+def clone_verdict(ctx, adt):
+    """(body path, body, good, why) for the `Clone` impl of a local type, None when the type is not
+    Clone.  good: derived, or a hand-written copy whose field i is (a copy of) field i."""
+    fb = ctx.fb
+    cache = ctx.__dict__.setdefault("_clone_verdicts", {})
+    if adt in cache:
+        return cache[adt]
+    name = "<%s as std::clone::Clone>::clone" % adt
+    b = fb.bodies.get(name)
+    if b is None:
+        cands = [p_ for p_ in fb.bodies if p_.startswith("<" + adt) and p_.endswith(" as std::clone::Clone>::clone")]
+        b = fb.bodies.get(cands[0]) if len(cands) == 1 else None
+        name = cands[0] if len(cands) == 1 else name
+    if b is None:
+        cache[adt] = None
+        return None
+    if b.derived():
+        cache[adt] = (name, b, True, "derive(Clone): field-wise")
+        return cache[adt]
+    good = False
+    why = "hand-written Clone not understood"
+    nf = len(fb.adt_fields(adt) or [])
+    for eng in ("wrap", "deep"):
+        se = getattr(ctx, eng).run(name)
+        if se is None:
+            continue
+        r = strip(se.ret)
+        if _eta(fb, r) in (("param", 1), ("deref", ("param", 1))):
+            good, why = True, "hand-written Clone copies every field to its own place"
+            break
+        if r[0] == "agg" and r[1] == "adt" and r[2] == adt and len(r[4]) == nf:
+            bad = []
+            for i, x in enumerate(r[4]):
+                y = _eta(fb, x)
+                if y != ("field", ("param", 1), i):
+                    bad.append((i, show(x, maxdepth=3)))
+            good = not bad
+            why = "hand-written Clone copies every field to its own place" if good else "hand-written Clone gives field %s the value %s" % (fb.adt_fields(adt)[bad[0][0]]["name"], bad[0][1])
+            if good:
+                break
+    cache[adt] = (name, b, good, why)
+    return cache[adt]
+
+
+def faithful_clones(ctx):
+    """paths of the hand-written `Clone::clone` bodies of local types that are proved to be
+    field-for-field copies: constructing / writing the type there creates no new state"""
+    out = set()
+    for adt in ctx.fb.adts:
+        v = clone_verdict(ctx, adt)
+        if v is not None and v[2] and not v[1].derived():
+            out.add(v[0])
+    return out
+
+
 def clone_fidelity(ctx, rep, rule, adts, role="clone"):
     """`Clone` of a value carrier: derived (field-wise by construction), or - when written by hand -
     an aggregate of the same type whose field i is (a clone of) field i of the original, under the
@@ -1345,37 +1417,13 @@ def clone_fidelity(ctx, rep, rule, adts, role="clone"):
     for adt in adts:
         if adt not in fb.adts:
             continue
-        name = "<%s as std::clone::Clone>::clone" % adt
-        b = fb.bodies.get(name)
-        if b is None:
-            cands = [p_ for p_ in fb.bodies if p_.startswith("<" + adt) and p_.endswith(" as std::clone::Clone>::clone")]
-            b = fb.bodies.get(cands[0]) if len(cands) == 1 else None
-            name = cands[0] if len(cands) == 1 else name
-        if b is None:
+        v = clone_verdict(ctx, adt)
+        if v is None:
             continue                      # the type is not Clone
+        name, b, good, why = v
         if b.derived():
-            rep.ok(rule, adt, role, "derive(Clone): field-wise", b.loc())
+            rep.ok(rule, adt, role, why, b.loc())
             continue
-        good = False
-        why = "hand-written Clone not understood"
-        nf = len(fb.adt_fields(adt) or [])
-        for eng in ("wrap", "deep"):
-            se = getattr(ctx, eng).run(name)
-            if se is None:
-                continue
-            r = strip(se.ret)
-            if r[0] == "agg" and r[1] == "adt" and r[2] == adt and len(r[4]) == nf:
-                bad = []
-                for i, x in enumerate(r[4]):
-                    y = strip(x)
-                    while is_call(y) and y[1] in IDENT_CALLS and len(y[2]) == 1:
-                        y = strip(y[2][0])
-                    if y != ("field", ("param", 1), i):
-                        bad.append((i, show(x, maxdepth=3)))
-                good = not bad
-                why = "hand-written Clone copies every field to its own place" if good else "hand-written Clone gives field %s the value %s" % (fb.adt_fields(adt)[bad[0][0]]["name"], bad[0][1])
-                if good:
-                    break
         rep.check(good, rule, adt, role, why, "a copy of %s is not the same value: %s" % (adt, why), b.loc())
 
 
